@@ -1,0 +1,88 @@
+//go:build verif
+
+// Contracts for the verifier in /verif (comment-only; compiled only with -tags verif).
+
+package vss
+
+//@ global zero != nil && val(zero) == 0 && one != nil && val(one) == 1
+//@ global ErrNumSharesBelowThreshold != nil
+
+// polyv(A, off, n, B, x, q): value at x of the polynomial whose n coefficients are the
+// big.Ints referenced by A[off..off+n) (values in B), Horner-free form used by the code:
+// a_0 + sum_{k>=1} a_k * x^k mod q, see /verif/prelude/prelude.smt2.
+
+//@ func CheckIndexes
+//@   props C15 C06
+//@   requires okCurve(ec) && (forall k in 0..len(indexes) :: indexes[k] != nil)
+//@   ensures [C15.refuse-zero-id] result1 == nil ==> (forall k in 0..len(indexes) :: val(indexes[k]) % curveN(ec) != 0)
+//@   ensures [C15.refuse-duplicate-ids] result1 == nil ==> (forall a, b in 0..len(indexes) :: (a < b ==> val(indexes[a]) % curveN(ec) != val(indexes[b]) % curveN(ec)))
+//@   ensures result1 == nil ==> result0 == indexes
+//@   ensures result1 != nil ==> isnil(result0)
+//@   loop 0 invariant fresh(visited) && allocated(visited) && visited != nil
+//@   loop 0 invariant forall k in 0..$iter :: val(indexes[k]) % curveN(ec) != 0
+//@   loop 0 invariant forall k in 0..$iter :: maphas(visited, bigstr(val(indexes[k]) % curveN(ec), false))
+//@   loop 0 invariant forall a, b in 0..$iter :: (a < b ==> val(indexes[a]) % curveN(ec) != val(indexes[b]) % curveN(ec))
+
+//@ func samplePolynomial
+//@   props C15 C06
+//@   requires okCurve(ec) && rand != nil && secret != nil
+//@   requires [threshold-range] 0 <= threshold && threshold < 1048576
+//@   ensures fresh(result) && len(result) == threshold + 1 && result[0] == secret
+//@   ensures forall k in 1..threshold+1 :: (result[k] != nil && fresh(result[k]) && allocated(result[k]) && 0 < val(result[k]) && val(result[k]) < curveN(ec))
+//@   loop 0 invariant 1 <= i && i <= threshold + 1 && len(v) == threshold + 1 && fresh(v) && v[0] == secret
+//@   loop 0 invariant forall k in 1..i :: (v[k] != nil && fresh(v[k]) && allocated(v[k]) && 0 < val(v[k]) && val(v[k]) < curveN(ec))
+
+//@ func evaluatePolynomial
+//@   props C15 C06
+//@   requires okCurve(ec) && id != nil && (forall k in 0..len(v) :: v[k] != nil)
+//@   requires [coefficients] 0 <= threshold && threshold < len(v)
+//@   ensures result != nil && fresh(result)
+//@   ensures threshold >= 1 ==> (0 <= val(result) && val(result) < curveN(ec))
+//@   ensures [C15.share-is-polynomial-value] val(result) == polyv(elems(v), off(v), threshold, old(bvheap()), old(val(id)), curveN(ec))
+//@   loop 0 invariant 1 <= i && i <= threshold + 1 && result != nil && fresh(result) && X != nil && fresh(X) && X != result
+//@   loop 0 invariant val(X) == xpow(val(id), i - 1, curveN(ec))
+//@   loop 0 invariant val(result) == polyv(elems(v), off(v), i - 1, old(bvheap()), val(id), curveN(ec))
+
+//@ func Create
+//@   props C15 C06 C03
+//@   requires okCurve(ec) && rand != nil
+//@   requires forall k in 0..len(indexes) :: indexes[k] != nil
+//@   requires [threshold-range] threshold < 1048576
+//@   requires [ND-secret-nonzero] secret != nil ==> (val(secret) >= 0 && !(issecp(ec) && val(secret) % curveN(ec) == 0))
+//@   loop 0 invariant len(v) == len(poly) && fresh(v) && len(poly) == threshold + 1 && fresh(poly) && poly[0] == secret && num == len(indexes) && ids == indexes
+//@   loop 0 invariant forall k in 1..threshold+1 :: (poly[k] != nil && fresh(poly[k]) && allocated(poly[k]) && 0 < val(poly[k]) && val(poly[k]) < curveN(ec))
+//@   loop 0 invariant forall k in 0..$iter :: (validPoint(v[k]) && fresh(v[k]) && allocated(v[k]))
+//@   loop 1 invariant 0 <= i && i <= num && len(shares) == num && fresh(shares) && num == len(indexes) && ids == indexes && len(v) == threshold + 1 && fresh(v)
+//@   loop 1 invariant len(poly) == threshold + 1 && (forall k in 0..threshold+1 :: poly[k] != nil)
+//@   loop 1 invariant forall k in 0..threshold+1 :: validPoint(v[k])
+//@   loop 1 invariant forall k in 0..i :: (shares[k] != nil && fresh(shares[k]) && allocated(shares[k]) && shares[k].Threshold == threshold && shares[k].ID == indexes[k] && shares[k].Share != nil)
+//@   ensures [C15.refuse-bad-input] result2 == nil ==> (secret != nil && !isnil(indexes) && threshold >= 1 && len(indexes) >= threshold)
+//@   ensures [C15.refuse-zero-id] result2 == nil ==> (forall k in 0..len(indexes) :: val(indexes[k]) % curveN(ec) != 0)
+//@   ensures [C15.refuse-duplicate-ids] result2 == nil ==> (forall a, b in 0..len(indexes) :: (a < b ==> val(indexes[a]) % curveN(ec) != val(indexes[b]) % curveN(ec)))
+//@   ensures [C15.commitment-count] result2 == nil ==> (len(result0) == threshold + 1 && len(result1) == len(indexes) && fresh(result0) && fresh(result1))
+//@   ensures [C15.shares-carry-ids] result2 == nil ==> (forall k in 0..len(indexes) :: (result1[k] != nil && result1[k].Threshold == threshold && result1[k].ID == indexes[k] && result1[k].Share != nil))
+//@   ensures result2 == nil ==> (forall k in 0..threshold+1 :: validPoint(result0[k]))
+
+//@ func (*Share).Verify
+//@   props C15 C06 C03 C05
+//@   requires share != nil && share.ID != nil && share.Share != nil && okCurve(ec)
+//@   requires forall k in 0..len(vs) :: (validPoint(vs[k]) && vs[k].curve == ec)
+//@   requires val(share.ID) >= 0 && val(share.Share) >= 0
+//@   requires [threshold-nonnegative] threshold >= 0
+//@   modifies allfield("crypto.ECPoint", "curve")
+//@   ensures [C20.curve-field-rewritten-with-same-value] fieldheap("crypto.ECPoint", "curve") == old(fieldheap("crypto.ECPoint", "curve"))
+//@   ensures [C15.threshold-and-count] result ==> (share.Threshold == threshold && len(vs) == threshold + 1)
+//@   ensures [C15.nonzero-id-and-share] result && issecp(ec) ==> (val(share.ID) % curveN(ec) != 0 && val(share.Share) % curveN(ec) != 0)
+//@   loop 0 invariant 1 <= j && j <= threshold + 1 && len(vs) == threshold + 1 && t != nil && val(t) >= 0 && validPoint(v) && v.curve == ec
+//@   loop 0 invariant issecp(ec) ==> val(t) % curveN(ec) != 0
+//@   loop 0 invariant fieldheap("crypto.ECPoint", "curve") == old(fieldheap("crypto.ECPoint", "curve"))
+
+//@ func (Shares).ReConstruct
+//@   props C15 C06
+//@   requires okCurve(ec)
+//@   requires forall k in 0..len(shares) :: (shares[k] != nil && shares[k].ID != nil && shares[k].Share != nil)
+//@   requires [distinct-ids] forall a, b in 0..len(shares) :: (a != b ==> gcd((val(shares[a].ID) - val(shares[b].ID)) % curveN(ec), curveN(ec)) == 1)
+//@   ensures err == nil ==> secret != nil
+//@   loop 0 invariant fresh(xs) && len(xs) == $iter && (forall k in 0..$iter :: xs[k] == shares[k].ID)
+//@   loop 1 invariant fresh(xs) && len(xs) == len(shares) && (forall k in 0..len(shares) :: xs[k] == shares[k].ID) && secret != nil
+//@   loop 2 invariant fresh(xs) && len(xs) == len(shares) && (forall k in 0..len(shares) :: xs[k] == shares[k].ID) && times != nil && 0 <= j
